@@ -62,6 +62,7 @@ func VerifC08Meaning() {
 		return
 	}
 	symKnown("C08-line-break-forced-before-inline-element-with-multi-line-children", verifFileHasTightBeforeIndentedInline(x))
+	symKnown("C08-text-ending-in-lone-carriage-return", verifFileHasTextWithCR(x))
 	symAssert(len(lit0) == len(lit1), "same number of static literals")
 	symAssertEq(verifMaskPositions(g1), verifMaskPositions(g0), "generated code from the formatted file equals the original's (positions masked)")
 }
